@@ -1173,6 +1173,9 @@ func (e *Env) Term(v ssa.Value) string {
 			if w, we := e.ctorField(v); w != nil {
 				return we.Term(w)
 			}
+			if t := e.multiStoreFieldTerm(v); t != "" {
+				return t
+			}
 			if fv, ok := v.X.(*ssa.FreeVar); ok {
 				// a captured variable that is assigned exactly once (by the enclosing function or a sibling literal)
 				if w, we := e.cellValue(fv); w != nil && we != nil && we.depth < 8 {
@@ -1481,6 +1484,109 @@ func usedOnlyOnSuccess(call *ssa.Call) bool {
 // ctorField: u loads field f of an object built by a module constructor (`newX(a, b)` returning `&X{f: a, g: b}`, possibly
 // reached through parameters: a parameter object handed to a method): returns the value the constructor stored into f and
 // the env to read it in. Only for fields that nothing but that constructor ever assigns.
+// ctorObjectField: u loads a field of an object built by a module constructor (reached through parameters): the fresh
+// allocation, the constructor's env and every store the constructor makes into that field — when the constructor is the only
+// function that ever assigns the field. For a field the builder assigns more than once (set to a default, overwritten under a
+// condition) the load is named by the constructor's own address of it, so that the builder's facts about it apply.
+func (e *Env) ctorObjectField(u *ssa.UnOp) (*ssa.Alloc, *Env, []*ssa.Store) {
+	if u.Op != token.MUL {
+		return nil, nil, nil
+	}
+	fa, ok := u.X.(*ssa.FieldAddr)
+	if !ok {
+		return nil, nil, nil
+	}
+	base, env := fa.X, e
+	for d := 0; d < 6; d++ {
+		par, ok := base.(*ssa.Parameter)
+		if !ok {
+			break
+		}
+		a, pe := env.actual(par)
+		if a == nil {
+			return nil, nil, nil
+		}
+		base, env = a, pe
+	}
+	var call *ssa.Call
+	switch x := base.(type) {
+	case *ssa.Call:
+		call = x
+	case *ssa.Extract:
+		if c, ok := x.Tuple.(*ssa.Call); ok && x.Index == 0 {
+			call = c
+		}
+	}
+	if call == nil || env.depth >= 5 {
+		return nil, nil, nil
+	}
+	sc := call.Call.StaticCallee()
+	if sc == nil || len(sc.Blocks) == 0 || sc.Pkg == nil || !strings.HasPrefix(sc.Pkg.Pkg.Path(), modPath) {
+		return nil, nil, nil
+	}
+	var obj *ssa.Alloc
+	for _, r := range returnsOf(sc) {
+		if len(r.Results) == 0 {
+			return nil, nil, nil
+		}
+		if lastIsError(sc) && !isSuccessReturn(r) {
+			continue
+		}
+		al, ok := retval(r, 0).(*ssa.Alloc)
+		if !ok || obj != nil && al != obj {
+			return nil, nil, nil
+		}
+		obj = al
+	}
+	if obj == nil || obj.Referrers() == nil || !e.P.fieldAssignedOnlyIn(obj.Type(), fa.Field, sc) {
+		return nil, nil, nil
+	}
+	var stores []*ssa.Store
+	for _, ref := range *obj.Referrers() {
+		f2, ok := ref.(*ssa.FieldAddr)
+		if !ok || f2.Field != fa.Field || f2.Referrers() == nil {
+			continue
+		}
+		for _, r2 := range *f2.Referrers() {
+			if st, ok := r2.(*ssa.Store); ok && st.Addr == ssa.Value(f2) {
+				stores = append(stores, st)
+			}
+		}
+	}
+	return obj, env.Sub(call, sc), stores
+}
+
+// atomRange: atoms known to lie in a constant range (a builder's field that is only ever assigned constants).
+var atomRange = map[string][2]int64{}
+
+// multiStoreFieldTerm: the name of a constructor-object field that the constructor assigns more than once.
+func (e *Env) multiStoreFieldTerm(u *ssa.UnOp) string {
+	obj, sub, stores := e.ctorObjectField(u)
+	if obj == nil || len(stores) < 2 {
+		return ""
+	}
+	fa := u.X.(*ssa.FieldAddr)
+	t := "*" + sub.Term(obj) + "." + fieldName(fa.X.Type(), fa.Field)
+	lo, hi, all := int64(0), int64(0), true
+	for i, st := range stores {
+		k, ok := constInt(st.Val)
+		if !ok {
+			all = false
+			break
+		}
+		if i == 0 || k < lo {
+			lo = k
+		}
+		if i == 0 || k > hi {
+			hi = k
+		}
+	}
+	if all {
+		atomRange[t] = [2]int64{lo, hi}
+	}
+	return t
+}
+
 func (e *Env) ctorField(u *ssa.UnOp) (ssa.Value, *Env) {
 	if u.Op != token.MUL {
 		return nil, nil
@@ -2122,6 +2228,12 @@ func (e *Env) LE(v ssa.Value) LE {
 			}
 			if w, we := e.ctorField(v); w != nil {
 				return we.LE(w)
+			}
+			if t := e.multiStoreFieldTerm(v); t != "" && isInteger(v.Type()) {
+				if isUnsignedT(v.Type()) {
+					atomUnsigned[t] = true
+				}
+				return leAtom(t)
 			}
 			if sv, _ := wholeStructForward(v); sv != nil {
 				if fa, ok := v.X.(*ssa.FieldAddr); ok {
@@ -4409,6 +4521,18 @@ func Proves(facts []Fact, goal LE) bool {
 	addQuo(goal)
 	for _, l := range append([]LE{}, ls...) {
 		addQuo(l)
+	}
+	// constant ranges of builder fields that occur
+	if len(atomRange) > 0 {
+		done := map[string]bool{}
+		for _, l := range append([]LE{goal}, ls...) {
+			for a := range l.c {
+				if rg, ok := atomRange[a]; ok && !done[a] {
+					done[a] = true
+					ls = append(ls, leAtom(a).addK(-rg[0]), leConst(rg[1]).minus(leAtom(a)))
+				}
+			}
+		}
 	}
 	return entails(ls, goal, nonNegAtom)
 }
